@@ -428,7 +428,7 @@ def descriptors(tier):
         d["id"] = kind + "/" + "/".join("%s=%s" % (k, json.dumps(v, separators=(",", ":")) if not isinstance(v, str) else v)
                                         for k, v in sorted(kw.items()))
         ds.append(d)
-    seeds = [0, 1, 2] if thorough else [0]
+    seeds = list(range(8)) if thorough else [0]
     for sd in seeds:
         for klen in (16, 24, 32):
             add("aes_block", klen=klen, sd=sd)
@@ -508,6 +508,9 @@ def descriptors(tier):
             for lab in ("", "derived", "c hs traffic", "x" * 249):
                 for ml in (None, 0, 1, 300):
                     add("derive_secret", h=h, label=lab, ml=ml, sd=sd)
+            for external in (True, False):
+                for pl, ml in ((HLEN[h], 0), (HLEN[h], 517), (1, 64), (HLEN[h] + 17, 200)):
+                    add("binder13", h=h, external=external, pl=pl, ml=ml, sd=sd)
         for sl in (0, 1, 2, 47, 48, 49, 127):
             for n in (0, 1, 15, 16, 17, 19, 20, 21, 33, 41, 48, 104):
                 if sl in (47, 48, 49) or n in (1, 48):
@@ -550,6 +553,8 @@ def descriptors(tier):
             m = suites.parse(sid)
             if m["tls13"] or "draft" in m["name"]:
                 continue
+            if not suites.negotiable(sid) or (m["kex"] == "DHE_DSS" and m["mac"] == "sha256"):
+                continue    # never negotiated by this tree (the suite catalogue is C20's subject)
             cls = (m["cipher"], m["mac"], m["prf"])
             if cls in seen and not (thorough and sd == 0):
                 continue
@@ -574,6 +579,11 @@ def descriptors(tier):
         # the AAD length encoding switch of CCM (2^16 - 2^8)
         for a in (65279, 65280):
             add("aead", fn="aes_ccm", klen=16, t=16, m=17, a=a, npat="rand", sd=0, mods="edges")
+        # messages of about 1 KiB (counter beyond one byte of blocks is not reached, but 64+ blocks are)
+        for fn, klen, t in (("aes_gcm", 16, 16), ("aes_gcm", 32, 16), ("aes_ccm", 16, 16), ("aes_ccm", 32, 8),
+                            ("chacha20_poly1305", 32, 16)):
+            for m in (1024, 1025):
+                add("aead", fn=fn, klen=klen, t=t, m=m, a=13, npat="rand", sd=0)
     return ds
 
 
@@ -686,8 +696,8 @@ def case_aead(d, r):
                 mod = bytes(b ^ (x if i == pos else 0) for i, b in enumerate(base))
                 manip.append({"c": (nonce, mod + ct[-t:], aad), "t": (nonce, ct[:-t] + mod, aad),
                               "n": (mod, ct, aad), "a": (nonce, ct, mod)}[part])
-        if d.get("mods") == "edges":
-            manip = manip[:2] + manip[-2:]
+        if d.get("mods") == "edges":     # the 64 KiB AAD case: each full evaluation costs TLC about a minute
+            manip = manip[:1]
         elif not d.get("allmanip"):      # quick tier: the short input and two of the others, rotating
             k = r.randrange(len(manip) - 1)
             manip = [manip[0], manip[1 + k], manip[1 + (k + 3) % (len(manip) - 1)]]
@@ -704,14 +714,15 @@ def case_aead(d, r):
                 mod = bytes(b ^ (x if i == pos else 0) for i, b in enumerate(base))
                 args = {"c": (nonce, mod, aad), "n": (mod, ct, aad), "a": (nonce, ct, mod)}[part]
                 calls.append(dict(op="openmod", part=part, pos=pos + 1, x=x, **do_open(*args)))
-        calls.append(dict(op="reopen", **do_open(nonce, ct, aad)))     # failed opens left no trace in the object
-        full += 1
-        # the object is reused for another message, then the first one is opened again
-        n2, a2, m2 = rb(r, 12), rb(r, 1), rb(r, 17)
-        ct2, exc = guarded(obj.seal, _ba(n2), _ba(m2), _ba(a2))
-        calls.append(dict(op="seal", n=L(n2), a=L(a2), **{"in": L(m2)}, out=L(ct2 or b""), exc=exc))
-        calls.append(dict(op="open", n=L(nonce), a=L(aad), **{"in": L(ct)}, **do_open(nonce, ct, aad)))
-        full += 2
+        if d.get("mods") != "edges":
+            calls.append(dict(op="reopen", **do_open(nonce, ct, aad)))     # failed opens left no trace in the object
+            full += 1
+            # the object is reused for another message, then the first one is opened again
+            n2, a2, m2 = rb(r, 12), rb(r, 1), rb(r, 17)
+            ct2, exc = guarded(obj.seal, _ba(n2), _ba(m2), _ba(a2))
+            calls.append(dict(op="seal", n=L(n2), a=L(a2), **{"in": L(m2)}, out=L(ct2 or b""), exc=exc))
+            calls.append(dict(op="open", n=L(nonce), a=L(aad), **{"in": L(ct)}, **do_open(nonce, ct, aad)))
+            full += 2
     per = {"aes_gcm": 2.2, "aes_ccm": 2.0, "chacha20_poly1305": 1.0}[fn]
     return dict(fn=fn, key=L(key), p=dict(t=t), calls=calls,
                 cost=full * per * ((d["m"] + 15) // 16 + (d["a"] + 15) // 16 + 3) + len(calls) * 0.05)
@@ -1121,13 +1132,27 @@ def case_exporter(d, r):
     return kdf("exporter", p, None if o is None else [o], lv, exc)
 
 
+def case_binder13(d, r):
+    """PSK binder (RFC 8446 4.2.11.2): computed like Finished (4.4.4) with BaseKey = binder_key"""
+    from tlslite.handshakehelpers import HandshakeHelpers
+    h, external = d["h"], d["external"]
+    psk, msgs = rb(r, d["pl"]), rb(r, d["ml"])
+    lv = Leaves()
+    early = lv.HM(h, bytes(HLEN[h]), psk)
+    bk = w_expand_label(lv, h, early, b"ext binder" if external else b"res binder", lv.H(h, b""), HLEN[h])
+    fk = w_expand_label(lv, h, bk, b"finished", b"", HLEN[h])
+    lv.HM(h, fk, lv.H(h, msgs))
+    o, exc = guarded(lambda: bytes(HandshakeHelpers._calc_binder(h, _ba(psk), hs_hashes(msgs), external)))
+    return kdf("binder13", dict(h=h, psk=L(psk), external=external, msgs=L(msgs)), None if o is None else [o], lv, exc)
+
+
 DRIVERS = {"aes_block": case_aes_block, "aes_cbc": case_aes_cbc, "aes_ctr": case_aes_ctr, "aead": case_aead,
            "chacha20": case_chacha20, "poly1305": case_poly1305, "rc4": case_rc4, "tdes_cbc": case_tdes_cbc,
            "hmac": case_hmac, "p_hash": case_p_hash, "prf10": case_prf10, "prf12": case_prf12,
            "prf_ssl": case_prf_ssl, "mac_ssl": case_mac_ssl, "digest_ssl": case_digest_ssl, "calc_key": case_calc_key,
            "hkdf_expand": case_hkdf, "hkdf_expand_label": case_hkdf, "derive_secret": case_derive_secret,
            "pending_states": case_pending_states, "pending13": case_pending13, "keyupdate13": case_pending13,
-           "exporter": case_exporter}
+           "exporter": case_exporter, "binder13": case_binder13}
 
 
 def make_case(d):
@@ -1288,6 +1313,23 @@ def run(tier):
         rejected.update(rej)
     for i, c in enumerate(cases):
         rep.case(c["desc"]["id"])
+    # calls TLC matched, per function and operation (rejected cases count up to the rejected call)
+    for i, c in enumerate(cases):
+        upto = rejected[i][0] if i in rejected else len(c["calls"])
+        for e in c["calls"][:upto]:
+            k = c["fn"] + "." + str(e.get("op", "eval"))
+            rep.actions[k] = rep.actions.get(k, 0) + 1
+    rep.notes["jvm_options"] = JVM_OPTS
+    rep.notes["observations"] = [
+        "Python_AES_CTR drops the unused key stream of a partial block: calls of lengths not a multiple of 16 do not "
+        "concatenate to the CTR encryption of the concatenated input (each call is specified as its own SP 800-38A "
+        "message); the library only uses the object inside GCM/CCM where this does not matter",
+        "Python_AES_CTR raises OverflowError when the counter field reaches its last value (one block early); accepted "
+        "as a refusal at exhaustion",
+        "RC4 objects refuse keys shorter than 16 bytes; ChaCha.encrypt does not advance the counter between calls (it is "
+        "the pure RFC 8439 function of key/counter/nonce); Poly1305 objects are one-shot",
+        "suites with DH_DSS / DHE_DSS+SHA256 names are not driven through calcPendingStates (never negotiated; "
+        "_getMacSettings asserts on them; reported under C20)"]
     refusals = 0
     for c in cases:
         if c["fn"] == "aes_ctr" and any(e.get("refused") for e in c["calls"]):
@@ -1301,6 +1343,8 @@ def run(tier):
     for c in cases[:: max(1, len(cases) // 6)]:
         rep.sample({"id": c["desc"]["id"], "fn": c["fn"], "calls": len(c["calls"]),
                     "first_call": json.loads(json.dumps(c["calls"][0]))if len(json.dumps(c["calls"][0])) < 600 else "..."})
+    # one VIOLATION per class of failing input (function, sizes/version/pattern, reason); instances listed in the replay file
+    groups = {}
     for i in sorted(rejected):
         c = cases[i]
         matched, why = rejected[i]
@@ -1309,9 +1353,16 @@ def run(tier):
             continue
         key = classify(c)
         key["why"] = why
+        groups.setdefault(json.dumps(key, sort_keys=True), []).append(i)
+    for k, idx in sorted(groups.items()):
+        c = cases[idx[0]]
+        matched = rejected[idx[0]][0]
         e = c["calls"][matched] if matched < len(c["calls"]) else {}
-        rep.violation(key, {"desc": c["desc"], "matched_calls": matched, "failing_call": e,
-                            "case_without_leaves": dict((k, v) for k, v in c.items() if k not in ("L", "calls"))})
+        rep.violation(json.loads(k), {"desc": c["desc"], "matched_calls": matched, "failing_call": e,
+                                      "instances": len(idx), "instance_ids": [cases[i]["desc"]["id"] for i in idx[:20]],
+                                      "case_without_leaves": dict((kk, v) for kk, v in c.items()
+                                                                  if kk not in ("L", "calls"))})
+    rep.notes["rejected_cases"] = len(rejected)
     return rep.finish()
 
 
